@@ -545,6 +545,27 @@ class Engine:
         for i, r in enumerate(cd.requires):
             g = fv.to_bool(fv.ev(r, cs, False))
             fv.oblige("pre@" + short, "site%d/requires%d" % (site, i), g, st, node)
+        # the callee was proved for the declared element types: an argument array must have exactly the
+        # declared dtype (iN = any signed integer dtype accepts i1/i2/i4/i8/iN)
+        def check_dtype(pn, ty, v):
+            if ty[0] == "opt":
+                if not isinstance(v, SNone):
+                    check_dtype(pn, ty[1], v)
+                return
+            if ty[0] == "tup" and isinstance(v, STuple):
+                for k2, (t2, v2) in enumerate(zip(ty[1], v.items)):
+                    check_dtype("%s[%d]" % (pn, k2), t2, v2)
+                return
+            if ty[0] == "arr" and isinstance(v, SArr):
+                want = {"int": "i8", "float": "f8", "bool": "b1", "xfloat": "f8"}.get(ty[1], ty[1])
+                have = st.heap[v.loc].dtype
+                if want == have or (want == "iN" and have in ("i1", "i2", "i4", "i8")):
+                    return
+                raise VerifError("call to %s passes a %s array for parameter %s declared %s" % (cd.qualname, have, pn, want))
+
+        for pn, ty in cd.params:
+            if pn in bound:
+                check_dtype(pn, ty, bound[pn])
         # the callee's contract was proved for pairwise separate arrays: an array it may modify must
         # not overlap any other array argument (views of one location need provably different indices)
         def arrays_of(v):
